@@ -892,7 +892,11 @@ class EClass(EClassifier):
         elif notif.feature is EClass.eGenericSuperTypes:
             # a generic super type is a base of the Python class as well
             self._update_supertypes()
-        elif notif.kind in (Kind.REMOVE, Kind.REMOVE_MANY):
+        elif (notif.kind in (Kind.REMOVE, Kind.REMOVE_MANY)
+              and notif.feature in (EClass.eOperations,
+                                    EClass.eStructuralFeatures)):
+            # (only these two collections are mirrored in the Python class:
+            # removed annotations, type parameters... are none of its business)
             is_operation = notif.feature is EClass.eOperations
             removed = (notif.old,) if notif.kind is Kind.REMOVE else notif.old
             for feature in removed:
